@@ -165,32 +165,55 @@ func c08NoneIsInvalid(c *core.Check) {
 	}
 	seen := map[*ssa.Function]bool{}
 	n := 0
+	var fns []*ssa.Function
 	for _, e := range tab {
-		f, ok := e.ValObj.(*types.Func)
-		if !ok {
-			continue
+		if f, ok := e.ValObj.(*types.Func); ok {
+			if fn := p.SSA.FuncValue(f); fn != nil {
+				fns = append(fns, fn)
+			}
 		}
-		fn := p.SSA.FuncValue(f)
+	}
+	// validators that ValidateKnown calls by name (color, handled apart for its inherit case)
+	if vk := p.Fn("css/validation", "ValidateKnown"); vk != nil {
+		core.Instrs(vk, func(in ssa.Instruction) {
+			if call, ok := in.(*ssa.Call); ok {
+				if callee := call.Call.StaticCallee(); callee != nil && callee.Pkg == vk.Pkg && len(callee.Params) == 2 {
+					fns = append(fns, callee)
+				}
+			}
+		})
+	}
+	for _, fn := range fns {
 		if fn == nil || fn.Blocks == nil || seen[fn] {
 			continue
 		}
 		seen[fn] = true
 		k := 0
-		core.Instrs(fn, func(in ssa.Instruction) {
-			ret, ok := in.(*ssa.Return)
-			if !ok || len(ret.Results) == 0 {
-				return
+		check := func(mi *ssa.MakeInterface, at *ssa.BasicBlock, pos token.Pos) {
+			inner := mi.X
+			if ct, ok := inner.(*ssa.ChangeType); ok { // pr.Color(parser.ParseColor(…))
+				inner = ct.X
 			}
-			mi, ok := ret.Results[0].(*ssa.MakeInterface)
+			alias := ""
+			if ld, ok := inner.(*ssa.UnOp); ok { // the result kept in a local: one store, of a call
+				if al, ok := ld.X.(*ssa.Alloc); ok {
+					var stores []*ssa.Store
+					for _, ref := range *al.Referrers() {
+						if st, ok := ref.(*ssa.Store); ok && st.Addr == ssa.Value(al) {
+							stores = append(stores, st)
+						}
+					}
+					if len(stores) == 1 {
+						alias = valueText(ld)
+						inner = stores[0].Val
+					}
+				}
+			}
+			call, ok := inner.(*ssa.Call)
 			if !ok {
 				return
 			}
-			call, ok := mi.X.(*ssa.Call)
-			if !ok {
-				return
-			}
-			// the type has an IsNone method
-			ms := p.SSA.MethodSets.MethodSet(mi.X.Type())
+			ms := p.SSA.MethodSets.MethodSet(call.Type())
 			has := false
 			for i := 0; i < ms.Len(); i++ {
 				if ms.At(i).Obj().Name() == "IsNone" {
@@ -200,9 +223,8 @@ func c08NoneIsInvalid(c *core.Check) {
 			if !has {
 				return
 			}
-			// the callee is a helper of css/validation that can answer with the zero value of the struct
 			callee := call.Call.StaticCallee()
-			if callee == nil || callee.Pkg == nil || core.Rel(callee.Pkg.Pkg.Path()) != "css/validation" || !returnsZeroStruct(callee) {
+			if callee == nil || callee.Pkg == nil || (core.Rel(callee.Pkg.Pkg.Path()) != "css/validation" && core.Rel(callee.Pkg.Pkg.Path()) != "css/parser") || !returnsZeroStruct(callee) {
 				return
 			}
 			n++
@@ -217,24 +239,38 @@ func c08NoneIsInvalid(c *core.Check) {
 				if !ok {
 					continue
 				}
-				for _, a := range core.IfCondAtoms(ifi.Cond) {
-					c2, ok := a.(*ssa.Call)
-					if !ok {
-						continue
-					}
-					callee := c2.Call.StaticCallee()
-					if callee == nil || callee.Name() != "IsNone" || len(c2.Call.Args) != 1 {
-						continue
-					}
-					if c2.Call.Args[0] != ssa.Value(call) && valueText(c2.Call.Args[0]) != valueText(call) {
-						continue
-					}
-					if s := b.Succs[1]; ifi.Cond == ssa.Value(c2) && (s == ret.Block() || s.Dominates(ret.Block())) {
-						tested = true
+				c2, ok := ifi.Cond.(*ssa.Call)
+				if !ok {
+					continue
+				}
+				cl := c2.Call.StaticCallee()
+				if cl == nil || cl.Name() != "IsNone" || len(c2.Call.Args) != 1 {
+					continue
+				}
+				if c2.Call.Args[0] != ssa.Value(call) && valueText(c2.Call.Args[0]) != valueText(call) && (alias == "" || valueText(c2.Call.Args[0]) != alias) {
+					continue
+				}
+				if s := b.Succs[1]; s == at || s.Dominates(at) {
+					tested = true
+				}
+			}
+			r.Cond(tested, key, p.Pos(pos), "returned only where IsNone() is false", "the result of "+core.CalleeName(call)+" is returned without an IsNone test: for a value the helper does not recognise the validator returns a non-nil zero property, the invalid declaration is kept and read as zeros")
+		}
+		core.Instrs(fn, func(in ssa.Instruction) {
+			ret, ok := in.(*ssa.Return)
+			if !ok || len(ret.Results) == 0 {
+				return
+			}
+			switch x := ret.Results[0].(type) {
+			case *ssa.MakeInterface:
+				check(x, x.Block(), ret.Pos())
+			case *ssa.Phi: // several returns merged into one
+				for _, e := range x.Edges {
+					if mi, ok := e.(*ssa.MakeInterface); ok {
+						check(mi, mi.Block(), mi.Pos())
 					}
 				}
 			}
-			r.Cond(tested, key, p.Pos(ret.Pos()), "returned only where IsNone() is false", "the result of "+core.CalleeName(call)+" is returned without an IsNone test: for a value the helper does not recognise the validator returns a non-nil zero property, the invalid declaration is kept and read as zeros")
 		})
 	}
 	if n == 0 {
